@@ -581,7 +581,9 @@ class Circuit:
         group will be ignored.
         """
         # Convert circuit spec and then assign to attribute
-        new_spec = compress_mode_swaps(deepcopy(self.__circuit_spec))
+        # Parameter objects are kept (not copied) so they remain linked
+        memo = {id(p): p for p in self.get_all_params()}
+        new_spec = compress_mode_swaps(deepcopy(self.__circuit_spec, memo))
         self.__circuit_spec = new_spec
 
     def remove_non_adjacent_bs(self) -> None:
@@ -590,7 +592,9 @@ class Circuit:
         with a mode swap and adjacent beam splitters.
         """
         # Convert circuit spec and then assign to attribute
-        spec = deepcopy(self.__circuit_spec)
+        # Parameter objects are kept (not copied) so they remain linked
+        memo = {id(p): p for p in self.get_all_params()}
+        spec = deepcopy(self.__circuit_spec, memo)
         new_spec = convert_non_adj_beamsplitters(spec)
         self.__circuit_spec = new_spec
 
